@@ -259,6 +259,25 @@ def do_replay(pid, mod, path):
 
 
 def main(argv):
+    """every temporary file of a run (halmos's query dump directories, the harness's generated projects), in this process and in
+    the workers (which inherit TMPDIR and do not run exit handlers), lives in one scratch directory under /verif/.work that is
+    removed when the run ends"""
+    import shutil
+    import tempfile
+
+    base = os.path.join(VERIF, ".work")
+    os.makedirs(base, exist_ok=True)
+    run_tmp = tempfile.mkdtemp(prefix=f"run{os.getpid()}_", dir=base)
+    os.environ["TMPDIR"] = run_tmp
+    os.environ["VERIF_RUN_TMP"] = run_tmp
+    tempfile.tempdir = None
+    try:
+        return _main(argv)
+    finally:
+        shutil.rmtree(run_tmp, ignore_errors=True)
+
+
+def _main(argv):
     ap = argparse.ArgumentParser(prog="check")
     ap.add_argument("prop")
     ap.add_argument("--tier", default=os.environ.get("VERIF_TIER", "quick"))
